@@ -3,6 +3,7 @@ package builder
 import (
 	"fmt"
 	"go/types"
+	"sort"
 	"strings"
 
 	"github.com/dave/jennifer/jen"
@@ -132,7 +133,13 @@ func (s *Struct) Assign(gen Generator, ctx *MethodContext, assignTo *AssignTo, s
 		stmt = append(stmt, jen.Id("_").Op("=").Add(sourceID.Code.Clone()))
 	}
 
+	// report the alphabetically first unknown field, not a random one
+	unknownFields := make([]string, 0, len(definedFields))
 	for name := range definedFields {
+		unknownFields = append(unknownFields, name)
+	}
+	sort.Strings(unknownFields)
+	for _, name := range unknownFields {
 		return nil, NewError(fmt.Sprintf("Field %q does not exist.\nRemove or adjust field settings referencing this field.", name)).Lift(&Path{
 			Prefix:     ".",
 			TargetID:   name,
